@@ -4,7 +4,7 @@
 //! with optimal compression and performance characteristics.
 
 use crate::blob_store::sorted_uint_vec::SortedUintVecBuilder;
-use crate::blob_store::zip_offset::{ZipOffsetBlobStore, ZipOffsetBlobStoreConfig};
+use crate::blob_store::zip_offset::{record_checksum, ZipOffsetBlobStore, ZipOffsetBlobStoreConfig};
 use crate::containers::FastVec;
 use crate::error::{Result, ZiporaError};
 use crate::memory::SecureMemoryPool;
@@ -249,10 +249,8 @@ impl ZipOffsetBlobStoreBuilder {
     /// Calculate checksum for data
     fn calculate_checksum(&self, data: &[u8]) -> u32 {
         // TODO: Implement hardware-accelerated CRC32C
-        // For now, use simple checksum
-        data.iter().fold(0u32, |acc, &byte| {
-            acc.wrapping_mul(31).wrapping_add(byte as u32)
-        })
+        // For now, use the simple checksum the store verifies
+        record_checksum(data)
     }
 
     /// Finish building and return the completed ZipOffsetBlobStore
@@ -261,19 +259,18 @@ impl ZipOffsetBlobStoreBuilder {
         self.offset_builder.push(self.current_offset)?;
         
         // Build compressed offset index
-        let _offsets = self.offset_builder.finish()?;
+        let offsets = self.offset_builder.finish()?;
         
         // Create the blob store
-        let store = if let Some(pool) = self.pool {
+        let mut store = if let Some(pool) = self.pool {
             ZipOffsetBlobStore::with_pool(self.config, pool)?
         } else {
             ZipOffsetBlobStore::with_config(self.config)?
         };
 
-        // Create the final store with the built data
-        // Note: This is a placeholder implementation
-        // TODO: Implement actual data transfer from builder to store
-        
+        // Hand the built content and offset index over to the store
+        store.set_content(self.content, offsets, self.stats.uncompressed_size);
+
         Ok(store)
     }
 
